@@ -95,6 +95,7 @@ class State:
         self.events = []
         self.assumed = []     # names of assumed contracts used on this path
         self.trace = []       # branch decisions (line, taken) along this path
+        self.consumed = {}    # one-shot iterators already iterated along this path (id -> spec)
         self.snaps = {}       # named ghost snapshots of earlier states (snap('name') / at('name', expr))
 
     def fork(self):
@@ -109,6 +110,7 @@ class State:
         s.assumed = list(self.assumed)
         s.trace = list(self.trace)
         s.snaps = dict(self.snaps)
+        s.consumed = dict(self.consumed)
         if hasattr(self, "final_params"):
             s.final_params = self.final_params
         return s
